@@ -35,6 +35,17 @@ or to a non-empty / non-zero value -- is bound again inside a nested block
 variable itself) by create, select, navigation, assignment or as a loop
 variable, read inside the block and after it; also with the enclosing block
 itself nested.
+
+Family loopctl: control stop / return (value, bare) / break / continue executed
+inside loop bodies -- in an if / elif / else of the body, in the inner or the outer
+of two nested loops (while, for each, mixed), in a loop inside an if / else --
+with observable statements behind it in the body, behind the inner loop and
+behind the loops.
+
+Link instances related to one participant only (one half of a link made or
+removed without `using`, or a participant deleted) are states of the sequence
+search, over the reflexive association class R4 and over R3; the probes read
+every variable that does not designate a deleted instance.
 '''
 import json
 
@@ -51,7 +62,12 @@ ASSUMPTIONS = [
     'satisfying the clause is left open: only emptiness and membership in the set selected by "select many" are compared',
     'below the two setups with the reflexive association class the menu is restricted to the statements over that association '
     '(menu_r4), and only population-changing statements lead to states that are expanded further',
-    'variables are observed through generated OAL statements copying them into a PROBE instance',
+    'variables are observed through generated OAL statements copying them into a PROBE instance; a handle whose instance has been '
+    'deleted is not read, of a set holding a deleted instance only the cardinality is',
+    'a link instance of an association class may be related to one participant only (relate / unrelate without `using`, deletion '
+    'of a participant): navigation across the association class that does not name the link class then reaches nothing through it',
+    'loopctl family: control stop and return end the whole action from any depth of loops and conditionals (no statement behind '
+    'them is executed, control stop delivers no value); break / continue act on the innermost enclosing loop',
     'boolexpr family: precedence and associativity of the reference are those of the printer (mc.refs.oalast.LEVEL: or below and '
     'below the comparisons below the arithmetic operators below the unary operators; and / or group to the left, comparisons do not '
     'chain); the reference evaluates the tree, the interpreter the text printed with the fewest parentheses that keep the tree; '
@@ -93,8 +109,10 @@ ASG = lambda lhs, rhs: ('assign', lhs, rhs, False)
 IF = lambda c, blk, elifs=(), els=None: ('if', c, list(blk), [(ec, list(eb)) for ec, eb in elifs], els, [True] + [False] * len(elifs))
 
 
-def probe_statements(env):
-    '''OAL statements copying every variable of the outermost scope into a PROBE instance.'''
+def probe_statements(env, ref=None):
+    '''OAL statements copying every variable of the outermost scope into a PROBE instance.  A handle whose instance has
+    been deleted is not read (reading it is outside the domain); of a set holding a deleted instance only the cardinality is.'''
+    dead = lambda i: ref is not None and i is not None and not ref.insts[i].alive
     # programs over the link class L hold more handles: they use all NI integer slots, the others the first 8
     ni = NI if any(isinstance(v, (E.Handle, E.InstSet)) and v.kind == 'L' for v in env.values()) else 8
     out = [('create', 'zz_', 'PROBE')]
@@ -115,6 +133,8 @@ def probe_statements(env):
             out.append(ASG(F('zz_', 's%d' % slot('s')), V(name)))
         elif t == 'boolean' and n['f'] < 2:
             out.append(ASG(F('zz_', 'f%d' % slot('f')), V(name)))
+        elif isinstance(v, E.Handle) and dead(v.idx):
+            continue
         elif isinstance(v, E.Handle) and n['i'] < ni:
             k = slot('i')
             if v.idx is None:
@@ -124,7 +144,10 @@ def probe_statements(env):
         elif isinstance(v, E.InstSet) and n['i'] < ni - 1:
             k, k2 = slot('i'), slot('i')
             out.append(ASG(F('zz_', 'i%d' % k), U('cardinality', V(name))))
-            out.append(('foreach', 'q_', name, [ASG(F('zz_', 'i%d' % k2), B('+', B('*', F('zz_', 'i%d' % k2), I(10)), F('q_', 'K')))], True))
+            if any(dead(i) for i in v.idxs):
+                continue
+            q = 'q_' if v.kind == 'A' else 'q%s_' % v.kind.lower()      # one loop variable per class: a variable keeps its type
+            out.append(('foreach', q, name, [ASG(F('zz_', 'i%d' % k2), B('+', B('*', F('zz_', 'i%d' % k2), I(10)), F(q, 'K')))], True))
     return out
 
 
@@ -153,6 +176,16 @@ def menu_r4(env, full=True):
                 for ph in ('one', 'other'):
                     out.append(('relate', x, y, 'R4', T(ph), l))
                     out.append(('unrelate', x, y, 'R4', T(ph), l))
+    # one half of a link at a time (no `using`): a link instance related to one participant only -- not yet / no longer
+    # to the other one -- is a state of its own (it also arises when a participant is deleted)
+    for x in hsA:
+        for l in hsL:
+            for ph in ('one', 'other'):
+                out.append(('relate', x, l, 'R4', T(ph), None))
+                out.append(('unrelate', x, l, 'R4', T(ph), None))
+                if full:
+                    out.append(('relate', l, x, 'R4', T(ph), None))
+                    out.append(('unrelate', l, x, 'R4', T(ph), None))
     for h in hsA + setsA:
         for ph in ('one', 'other'):
             out.append(('selrel', 'many', 'ls', V(h), [('L', 'R4', T(ph))], None))
@@ -294,6 +327,12 @@ def menu(env, ref, tier, core_only=False, focus=None):
             for c in hs['C']:
                 out.append(('relate', a, b, 'R3', None, c))
                 out.append(('unrelate', a, b, 'R3', None, c))
+    if not core_only:
+        # one half of a link across R3 at a time: the link instance c is related to one participant only
+        for c in hs['C']:
+            for x in hs['A'] + hs['B']:
+                out.append(('relate', x, c, 'R3', None, None))
+                out.append(('unrelate', c, x, 'R3', None, None))
     for x in hs['A']:
         for y in hs['A']:
             if x != y or not core_only:
@@ -322,9 +361,9 @@ def menu(env, ref, tier, core_only=False, focus=None):
         for w in wb:
             out.append(('selrel', 'many', 'bs', V(h), [('B', 'R1', None)], w))
             out.append(('selrel', 'any', 'y', V(h), [('B', 'R1', None)], w))
+        out.append(('selrel', 'many', 'bs', V(h), [('B', 'R3', None)], None))       # across the link class C, not naming it
         if not core_only:
             out.append(('selrel', 'many', 'bs', V(h), [('C', 'R3', None), ('B', 'R3', None)], None))
-            out.append(('selrel', 'many', 'bs', V(h), [('B', 'R3', None)], None))
             out.append(('selrel', 'many', 'cs', V(h), [('C', 'R3', None)], None))
         out.append(('selrel', 'one', 'x', V(h), [('A', 'R2', T('prev'))], None))
         out.append(('selrel', 'one', 'x', V(h), [('A', 'R2', T('next'))], None))
@@ -480,10 +519,10 @@ def ref_values(ref):
 def check_program(ctx, prog, family, layout=None, sigprefix='c04', extra_case=None):
     '''Run one complete program (with probes) on both sides. Returns ('ood'|'ok'|'bad', ...)'''
     try:
-        _, _, env = run_reference(prog)
+        _, ref0, env = run_reference(prog)
     except E.OutOfDomain:
         return 'ood', None
-    probes = probe_statements(env) if env is not None else []
+    probes = probe_statements(env, ref0) if env is not None else []
     full = list(prog) + probes
     try:
         exp_value, ref, _ = run_reference(full)
@@ -941,6 +980,9 @@ def family_case(ctx, case):
     if fam == 'boolexpr':
         prog = bool_program(case['context'], case['tmpl'], case.get('bits'))
         sig = 'c04:boolexpr:%s' % case['context']
+    elif fam == 'loopctl':
+        prog = case['prog']
+        sig = 'c04:loopctl:%s' % case['control']
     else:
         prog = case['prog']
         sig = 'c04:rebind:%s' % case['container']
@@ -984,6 +1026,10 @@ def family_task(sub, cases):
             sub.distinct('boolexpr_templates', repr(case['tmpl']))
             if is_mixed_bare(_fill(case['tmpl'], [V('p'), V('q'), V('r'), V('u')])):
                 sub.count('boolexpr_mixed_bare')
+        elif case['family'] == 'loopctl':
+            sub.distinct('loopctl_shapes', (case['control'], case['guard'], case['loop']))
+            if case['control'] in ('stop', 'return-value', 'return-bare'):
+                sub.count('loopctl_action_ended_inside_a_loop')
         else:
             sub.distinct('rebind_outer_bindings', case['what'])
             sub.distinct('rebind_containers', case['container'])
@@ -1122,6 +1168,84 @@ def rebind_cases(tier):
     return out
 
 
+# ---------------------------------------------------------------------------
+# family loopctl: control stop / return / break / continue executed inside loop bodies -- directly, inside an if / elif / else
+# of the body, in the inner or the outer one of two nested loops, in a loop inside an if -- with observable statements behind
+# the statement in the body, behind the inner loop in the outer body, and behind the loop(s): control stop and return end the
+# whole action (whatever encloses them), break / continue act on the innermost loop only.
+# ---------------------------------------------------------------------------
+
+# (the counters Ci, Cj sort before the other names: the probes copy them first)
+LOOPCTL_POP = REBIND_POP + [('create', 'b2', 'B'), ASG(F('b2', 'K'), I(2)), ('selfrom', 'many', 'bs', 'B', None, False), ASG(V('Ci'), I(0)), ASG(V('Cj'), I(0))]
+
+
+def loopctl_controls():
+    return [('stop', ('stop',)), ('return-value', ('return', B('+', V('Ci'), I(70)))), ('return-bare', ('return', None)),
+            ('break', ('break',)), ('continue', ('continue',))]
+
+
+def loopctl_guards(tier):
+    """(name, function(condition-holds-in-this-iteration, control statement) -> statements)"""
+    out = [('bare', lambda c, x: [IF(c, [x])]),                 # the statement in an if of the loop body
+           ('else', lambda c, x: [IF(U('not', c), [ASG(V('Cj'), B('+', V('Cj'), I(1)))], [], [x])]),
+           ('elif', lambda c, x: [IF(FALSE, [], [(c, [ASG(V('Cj'), B('+', V('Cj'), I(100)))] + [x])], [ASG(V('Cj'), B('+', V('Cj'), I(1)))])]),
+           ('if-if', lambda c, x: [IF(TRUE, [IF(c, [x])])])]
+    return out if tier == 'thorough' else out[:3]
+
+
+def loopctl_loops(tier):
+    """(name, function(control statements at the place of the inner body) -> statements).  The counters i (iterations of the
+    outer loop) and j, and the attributes N of the instances, record what was executed."""
+    inc_i, inc_j = ASG(V('Ci'), B('+', V('Ci'), I(1))), ASG(V('Cj'), B('+', V('Cj'), I(10)))
+    wh = lambda body: ('while', B('<', V('Ci'), I(3)), [inc_i] + body + [inc_j], True)
+    fe = lambda body: ('foreach', 'e_', 'as_', [ASG(F('e_', 'N'), B('+', F('e_', 'N'), I(1)))] + body + [ASG(F('e_', 'N'), B('+', F('e_', 'N'), I(10)))], True)
+    inner_wh = lambda body: [ASG(V('k_'), I(0)), ('while', B('<', V('k_'), I(2)), [ASG(V('k_'), B('+', V('k_'), I(1)))] + body + [inc_j], False),
+                             ASG(F('a1', 'N'), B('+', F('a1', 'N'), I(100)))]
+    inner_fe = lambda body: [('foreach', 'g_', 'bs', [ASG(F('g_', 'N'), B('+', F('g_', 'N'), I(1)))] + body + [inc_j], True),
+                             ASG(F('a1', 'N'), B('+', F('a1', 'N'), I(100)))]
+    # condition true in the second iteration of a while over i / for the instance with K == 2 of a for each / of an inner loop
+    ci, ce, ck, cg = B('==', V('Ci'), I(2)), B('==', F('e_', 'K'), I(2)), B('==', V('k_'), I(1)), B('==', F('g_', 'K'), I(1))
+    out = [
+        ('while', ci, lambda b: [wh(b)]),
+        ('foreach', ce, lambda b: [fe(b)]),
+        ('while-first-iteration', TRUE, lambda b: [wh(b)]),
+        ('while-in-while', ck, lambda b: [wh(inner_wh(b))]),
+        ('foreach-in-while', cg, lambda b: [wh(inner_fe(b))]),
+        ('while-in-foreach', ck, lambda b: [fe(inner_wh(b))]),
+        ('foreach-in-foreach', cg, lambda b: [fe(inner_fe(b))]),
+        ('outer-of-two', ci, lambda b: [wh(inner_wh([]) + b)]),            # behind a complete inner loop, in the outer body
+        ('while-in-if', ci, lambda b: [IF(TRUE, [wh(b), ASG(F('a2', 'N'), I(9))], [], [])]),
+        ('foreach-in-else', ce, lambda b: [IF(FALSE, [], [], [fe(b), ASG(F('a2', 'N'), I(9))])]),
+    ]
+    if tier == 'thorough':
+        out += [('foreach-first-iteration', TRUE, lambda b: [fe(b)]),
+                ('while-in-while-in-if', ck, lambda b: [IF(TRUE, [wh(inner_wh(b))])]),
+                ('third-level', ck, lambda b: [wh([('foreach', 'g_', 'bs', inner_wh(b), True)])])]
+    return out
+
+
+def loopctl_afters():
+    """Observable statements behind the loop(s)."""
+    return [('attribute', [ASG(F('a3', 'Name'), S('after'))]),
+            ('create-relate', [('create', 'b9', 'B'), ASG(F('b9', 'K'), I(9)), ('relate', 'b9', 'a2', 'R1', None, None)]),
+            ('delete-unrelate', [('unrelate', 'b1', 'a1', 'R1', None, None), ('delete', 'a3')]),
+            ('return', [('return', B('+', B('*', V('Cj'), I(10)), V('Ci')))]),
+            ('nothing', [])]
+
+
+def loopctl_cases(tier):
+    out = []
+    for xname, x in loopctl_controls():
+        for gname, guard in loopctl_guards(tier):
+            for lname, cond, loops in loopctl_loops(tier):
+                for aname, after in loopctl_afters():
+                    if tier != 'thorough' and xname in ('break', 'continue') and aname not in ('return', 'attribute'):
+                        continue
+                    out.append(dict(family='loopctl', control=xname, guard=gname, loop=lname, after=aname,
+                                    prog=LOOPCTL_POP + loops(guard(cond, x)) + after))
+    return out
+
+
 DEPTH = {'quick': 2, 'thorough': 3}
 
 
@@ -1153,7 +1277,7 @@ def run(ctx):
     cases = anyrel_cases(ctx.tier)
     cases = explorer.rotate(cases, ctx.seed)
     ctx.pmap(anyrel_task, [cases[i:i + 40] for i in range(0, len(cases), 40)])
-    fam = explorer.rotate(boolexpr_cases(ctx.tier) + rebind_cases(ctx.tier), ctx.seed)
+    fam = explorer.rotate(boolexpr_cases(ctx.tier) + rebind_cases(ctx.tier) + loopctl_cases(ctx.tier), ctx.seed)
     ctx.pmap(family_task, [fam[i::len(fam) // 25 + 1] for i in range(len(fam) // 25 + 1)])
     ctx.count('states', len(seen) + len(FAN_ORDERS[ctx.tier]) + len(fam))
     longest = max(seen.values(), key=len)
@@ -1172,6 +1296,9 @@ def run(ctx):
     ctx.require(ctx.n('rebind_runs') >= 1500 and ctx.n('rebind_empty_then_bound') >= 300,
                 'rebind family: %d runs, %d of them bind an empty handle / set of the enclosing block to something inside a nested block'
                 % (ctx.n('rebind_runs'), ctx.n('rebind_empty_then_bound')))
+    ctx.require(ctx.n('loopctl_out_of_domain') == 0 and ctx.n('loopctl_action_ended_inside_a_loop') >= 300,
+                'loopctl family: %d runs end the action inside a loop, %d programs the reference rejects'
+                % (ctx.n('loopctl_action_ended_inside_a_loop'), ctx.n('loopctl_out_of_domain')))
     ctx.require(ctx.nd('nontrivial') >= 300, 'too few programs with loops / conditionals / where clauses (%d)' % ctx.nd('nontrivial'))
 
 
@@ -1184,7 +1311,7 @@ def replay(ctx, case):
     if case.get('family') == 'anyrel':
         check_anyrel(ctx, case)
         return
-    if case.get('family') in ('boolexpr', 'rebind'):
+    if case.get('family') in ('boolexpr', 'rebind', 'loopctl'):
         family_case(ctx, case)
         return
     check_program(ctx, case['prog'], case.get('family', 'seq'))
@@ -1203,7 +1330,8 @@ def coverage(ctx):
              'not run; non-trivial = distinct programs whose last statement is a loop, a conditional, or a selection with a where '
              'clause or a relationship chain; plus the anyrel family: every (link order, chain, where clause, any|one, observation '
              'variant) combination over the fan-out population; plus the boolexpr family: every (template, context[, valuation]) '
-             'case, and the rebind family: every (outer binding, container, inner binding, read after the block) case',
+             'case, the rebind family: every (outer binding, container, inner binding, read after the block) case, and the loopctl '
+             'family: every (control statement, guard, loop shape, statements behind the loops) case',
         bounds=dict(depth=DEPTH[ctx.tier], setups=len(SETUPS), pools=dict(A=3, B=2, C=1, L=2), setup_menus=SETUP_FOCUS,
                     anyrel=dict(link_orders=FAN_ORDERS[ctx.tier], chains=len(ANYREL_CHAINS),
                                 where_clauses=len(anyrel_wheres(ANYREL_CHAINS[0][1], ctx.tier)),
@@ -1222,5 +1350,11 @@ def coverage(ctx):
                     bounds=dict(outer=[o[0] for o in rebind_outer()] + ['from-nothing'],
                                 containers=[c[0] for c in rebind_containers('A', ctx.tier)], nesting='the container, and the container '
                                 'inside an if block that also holds the first binding', population='3 A, 1 B (R1 b1-a1, R2 a1-a2); or none')),
+        loopctl=dict(runs=ctx.n('loopctl_runs'), shapes=ctx.nd('loopctl_shapes'),
+                     runs_ending_the_action_inside_a_loop=ctx.n('loopctl_action_ended_inside_a_loop'),
+                     bounds=dict(controls=[c[0] for c in loopctl_controls()], guards=[g[0] for g in loopctl_guards(ctx.tier)],
+                                 loops=[l[0] for l in loopctl_loops(ctx.tier)], behind_the_loops=[a[0] for a in loopctl_afters()],
+                                 nesting='two loop levels (thorough: three), loops inside if / else',
+                                 population='3 A, 2 B (R1 b1-a1, R2 a1-a2)')),
         exhaustive=not ctx.caps_hit,
     )
